@@ -9,7 +9,7 @@
 //! Finder (implementation alone, brute force in f64): hits are live, have a vector, pass
 //! `filter`/`vector_filter`; `vector_score` = exact similarity × boost; `score` = documented
 //! blend; order; wrong dimension ⇒ rejected; exact nearest neighbours when every segment
-//! holds at most `hnsw.m` vectors; compaction keeps vector results.
+//! holds at most `hnsw.m` vectors; compaction and a directory copy keep vector results.
 use crate::proto::Driver;
 use crate::rng::Rng;
 use crate::summary::Summary;
@@ -45,7 +45,7 @@ impl Prop for C29 {
     "C29"
   }
   fn rule(&self) -> &'static str {
-    "case kinds: `index` = random vector schema (1-2 fields, dim 1-8, Cosine/L2, optional hnsw m/ef_construction), 1-4 add commits (= segments) with missing/null vectors, delete-only commits and upserts in between, then 4-8 requests (single vector clause, bool/dis_max of several clauses, hybrid via vector_query tuple/object, hybrid bool, filter/vector_filter, explicit k/candidate_size/ef_search/boost/alpha, wrong dimension and other invalid parameters), optionally followed by compact(); `hnsw` = HnswIndex built directly on a random store and searched with random (k, ef); `baddoc` = document whose vector has the wrong dimension. One evaluation = one request (or one hnsw search / one bad document). A request is non-trivial when it is rejected for its dimension, or when it returns at least one hit with a vector_score while the index holds at least one ineligible vector document (deleted, filtered out, missing vector) or at least two eligible ones; an hnsw search is non-trivial when the store has at least 2 vectors."
+    "case kinds: `index` = random vector schema (1-2 fields, dim 1-8, Cosine/L2, optional hnsw m/ef_construction), 1-4 add commits (= segments) with missing/null vectors, delete-only commits and upserts in between, then 4-8 requests (single vector clause, bool/dis_max of several clauses, hybrid via vector_query tuple/object, hybrid bool, filter/vector_filter, explicit k/candidate_size/ef_search/boost/alpha, wrong dimension and other invalid parameters), optionally followed by compact() (must be refused or a no-op and leave every vector-only result unchanged) or by copying the index directory, removing the original and searching the copy; `hnsw` = HnswIndex built directly on a random store and searched with random (k, ef); `baddoc` = document whose vector has the wrong dimension. One evaluation = one request (or one hnsw search / one bad document). A request is non-trivial when it is rejected for its dimension, or when it returns at least one hit with a vector_score while the index holds at least one ineligible vector document (deleted, filtered out, missing vector) or at least two eligible ones; an hnsw search is non-trivial when the store has at least 2 vectors."
   }
   fn count(&self, tier: Tier) -> usize {
     tier.pick(260, 6000)
@@ -155,11 +155,10 @@ mod imp {
         text_words.push(w);
         let mut q = w.to_string();
         if rng.chance(1, 3) {
+          // the same word twice is allowed again (the debug assertion it used to trip is repaired)
           let w2 = *rng.pick(&WORDS);
-          if w2 != w {
-            text_words.push(w2);
-            q = format!("{w} {w2}");
-          }
+          text_words.push(w2);
+          q = format!("{w} {w2}");
         }
         req["query"] = json!(q);
         let c = gen_clause(rng, fields, false);
@@ -342,7 +341,10 @@ mod imp {
     }
     let nreq = 4 + rng.below(5);
     let requests: Vec<Value> = (0..nreq).map(|_| gen_request(rng, &fields)).collect();
-    json!({"kind": "index", "fields": fields, "commits": commits, "requests": requests, "compact": rng.chance(1, 10), "mem": rng.chance(1, 8)})
+    let compact = rng.chance(1, 10);
+    let mem = rng.chance(1, 8);
+    let copy = !compact && !mem && rng.chance(1, 8);
+    json!({"kind": "index", "fields": fields, "commits": commits, "requests": requests, "compact": compact, "copy": copy, "mem": mem})
   }
 
   // ---------------------------------------------------------------- helpers
@@ -794,61 +796,113 @@ mod imp {
       pre.push(r);
       model_reqs.push(mreq);
     }
+    let sub_of = |rq: &Value, extra: &str| -> Value {
+      let mut c = json!({"kind": "index", "fields": fields, "commits": commits, "requests": [rq], "compact": false, "copy": false, "mem": mem});
+      c[extra] = json!(true);
+      c
+    };
     if case["compact"].as_bool().unwrap_or(false) {
       s.count("compact.run");
+      // correspondence: is the call refused?  (model: more than one segment and a vector field)
+      let segs_min: Vec<Value> = built.segs.iter().map(|sg| Value::Array(sg.iter().map(|v| json!({"deleted": v.deleted})).collect())).collect();
+      let mc = drv.call("C29", json!({"op": "compact", "schema": model_schema(&fields), "segments": segs_min}));
       match guarded(|| idx.compact()) {
-        Ok(Ok(())) => {
-          let reader2 = match idx.reader() {
-            Ok(r) => r,
-            Err(e) => {
-              s.fail("compact.reader-error", "no reader after compaction of an index with vector fields", case, json!({"error": e.to_string()}));
-              return;
-            }
-          };
-          for ((rq, before), mreq) in requests.iter().zip(&pre).zip(&model_reqs) {
-            let Some(before) = before else { continue };
-            if before.is_empty() || !rq["vector_only"].as_bool().unwrap_or(false) {
-              continue;
-            }
-            let after = match search(&reader2, &rq["req"]) {
-              idx::Outcome::Ok(v) => v["hits"].as_array().cloned().unwrap_or_default().iter().map(|h| (ver_of_hit(h), hscore(h))).collect::<Vec<_>>(),
-              o => {
-                s.fail("compact.search-error", "a vector request that succeeded before compaction fails after it", &json!({"case": case, "req": rq}), o.to_json());
-                continue;
-              }
-            };
-            // correspondence: the model of compaction (re-ingest from stored fields, no vectors)
-            if !mreq.is_null() {
-              let mut m2 = mreq.clone();
-              m2["compacted"] = json!(true);
-              let mr = drv.call("C29", m2);
-              let mn = mr["hits"].as_array().map(|a| a.len());
-              if mr["outcome"] != json!("hits") || mn != Some(after.len()) {
-                s.disagree("compact.search", &json!({"kind": "index", "fields": fields, "commits": commits, "requests": [rq], "compact": true, "mem": mem}), json!(after), mr);
-              } else {
-                s.count("compact.model-agrees");
-              }
-            }
-            let same = after.len() == before.len() && after.iter().zip(before).all(|(a, b)| near(a.1, b.1)) && {
-              let mut x: Vec<&String> = after.iter().map(|a| &a.0).collect();
-              let mut y: Vec<&String> = before.iter().map(|a| &a.0).collect();
-              x.sort();
-              y.sort();
-              x == y
-            };
-            if !same && built.segs.len() > 1 {
-              let sig = if after.is_empty() { "compact.vectors-dropped" } else { "compact.vector-results-changed" };
-              s.fail(sig, "a vector-only request returns different hits after compact()", &json!({"kind": "index", "fields": fields, "commits": commits, "requests": [rq], "compact": true, "mem": mem}), json!({"before": before, "after": after}));
-            } else {
-              s.count("compact.same-results");
-            }
+        Ok(res) => {
+          let refused = res.is_err();
+          s.count(if refused { "compact.refused" } else { "compact.done" });
+          if mc["ok"] != json!(true) || (mc["outcome"] == json!("refused")) != refused {
+            s.disagree("compact.outcome", case, json!({"refused": refused, "error": res.as_ref().err().map(|e| e.to_string())}), mc.clone());
+          }
+          match idx.reader() {
+            Ok(reader2) => recheck(drv, s, &reader2, &requests, &pre, &model_reqs, true, built.segs.len() > 1, "compact", &sub_of),
+            Err(e) => s.fail("compact.reader-error", "no reader after compact() of an index with vector fields", case, json!({"error": e.to_string()})),
           }
         }
-        Ok(Err(e)) => {
-          s.count("compact.refused");
-          s.notes.push(format!("C29: compact() refused on a vector schema: {e}"));
-        }
         Err(p) => s.fail("compact.panic", "compact() panicked on an index with vector fields", case, json!({"panic": p})),
+      }
+    } else if case["copy"].as_bool().unwrap_or(false) && !mem {
+      // a copied index directory must be self-contained, vector files included: copy, remove
+      // the original, search the copy
+      s.count("copy.run");
+      let dir2 = scratch();
+      let dst = dir2.path().join("copy");
+      if let Err(e) = copy_dir(dir.path(), &dst) {
+        s.notes.push(format!("C29: copying the index directory failed: {e}"));
+        return;
+      }
+      drop(reader);
+      drop(idx);
+      let _ = std::fs::remove_dir_all(dir.path());
+      let opened = guarded(|| idx::open(&dst).and_then(|i| i.reader().map(|r| (i, r)).map_err(|e| e.to_string())));
+      match opened {
+        Ok(Ok((_i2, reader2))) => recheck(drv, s, &reader2, &requests, &pre, &model_reqs, false, true, "copy", &sub_of),
+        Ok(Err(e)) => s.fail("copy.vector-dir-not-reanchored", "a copied index with vector fields cannot be opened once the original directory is gone", &sub_of(&requests.first().cloned().unwrap_or(Value::Null), "copy"), json!({"error": e})),
+        Err(p) => s.fail("copy.panic", "opening a copied index with vector fields panicked", case, json!({"panic": p})),
+      }
+    }
+  }
+
+  fn copy_dir(src: &std::path::Path, dst: &std::path::Path) -> std::io::Result<()> {
+    std::fs::create_dir_all(dst)?;
+    for e in std::fs::read_dir(src)? {
+      let e = e?;
+      let to = dst.join(e.file_name());
+      if e.file_type()?.is_dir() {
+        copy_dir(&e.path(), &to)?;
+      } else {
+        std::fs::copy(e.path(), &to)?;
+      }
+    }
+    Ok(())
+  }
+
+  /// re-run the vector-only requests on a second reader (after `compact()` / on a copy of the
+  /// directory): the hits must be the ones seen before (finder) and the ones of the model
+  #[allow(clippy::too_many_arguments)]
+  fn recheck(drv: &mut Driver, s: &mut Summary, reader2: &searchlite_core::api::IndexReader, requests: &[Value], pre: &[Option<Vec<(String, f64)>>], model_reqs: &[Value], compacted: bool, strict: bool, tag: &str, sub_of: &dyn Fn(&Value, &str) -> Value) {
+    for ((rq, before), mreq) in requests.iter().zip(pre).zip(model_reqs) {
+      let Some(before) = before else { continue };
+      if before.is_empty() || !rq["vector_only"].as_bool().unwrap_or(false) {
+        continue;
+      }
+      let sub = sub_of(rq, tag);
+      let after = match search(reader2, &rq["req"]) {
+        idx::Outcome::Ok(v) => v["hits"].as_array().cloned().unwrap_or_default().iter().map(|h| (ver_of_hit(h), hscore(h))).collect::<Vec<_>>(),
+        o => {
+          let sig = if tag == "copy" { "copy.vector-dir-not-reanchored".to_string() } else { format!("{tag}.search-error") };
+          s.fail(&sig, "a vector request that succeeded before fails on the second reader", &sub, o.to_json());
+          continue;
+        }
+      };
+      if !mreq.is_null() {
+        let mut m2 = mreq.clone();
+        if compacted {
+          m2["compacted"] = json!(true);
+        }
+        let mr = drv.call("C29", m2);
+        let mn = mr["hits"].as_array().map(|a| a.len());
+        if mr["outcome"] != json!("hits") || mn != Some(after.len()) {
+          s.disagree(&format!("{tag}.search"), &sub, json!(after), mr);
+        } else {
+          s.count(&format!("{tag}.model-agrees"));
+        }
+      }
+      let same = after.len() == before.len() && after.iter().zip(before).all(|(a, b)| near(a.1, b.1)) && {
+        let mut x: Vec<&String> = after.iter().map(|a| &a.0).collect();
+        let mut y: Vec<&String> = before.iter().map(|a| &a.0).collect();
+        x.sort();
+        y.sort();
+        x == y
+      };
+      if !same && strict {
+        let sig = match (tag, after.is_empty()) {
+          ("copy", _) => "copy.vector-dir-not-reanchored",
+          (_, true) => "compact.vectors-dropped",
+          _ => "compact.vector-results-changed",
+        };
+        s.fail(sig, "a vector-only request returns different hits on the second reader (after compact() / on the copied directory)", &sub, json!({"before": before, "after": after}));
+      } else {
+        s.count(&format!("{tag}.same-results"));
       }
     }
   }
